@@ -179,6 +179,11 @@ pub fn gen_bulk_script(rng: &mut Rng) -> Scenario {
     }
 }
 
+/// `quit` as GUIs and humans type it: plain, with CR, with blanks or a tab around it.
+fn quit_line(rng: &mut Rng) -> String {
+    rng.pick(&["quit\n", "quit\n", "quit\n", "quit\r\n", "quit \n", " quit\n", "quit\t\n", "  quit  \r\n"]).to_string()
+}
+
 pub fn gen_script(rng: &mut Rng) -> Scenario {
     let heavy = rng.chance(1, 3);
     let n = rng.range(1, if heavy { 7 } else { 10 }) as usize;
@@ -199,10 +204,11 @@ pub fn gen_script(rng: &mut Rng) -> Scenario {
     }
     match rng.below(4) {
         0 => {}
-        1 | 2 => lines.push(if rng.chance(1, 4) { "quit".to_string() } else { "quit\n".to_string() }),
+        1 | 2 => lines.push(if rng.chance(1, 4) { "quit".to_string() } else { quit_line(rng) }),
         _ => {
             let at = rng.usize_below(lines.len() + 1);
-            lines.insert(at, "quit\n".to_string());
+            let q = quit_line(rng);
+            lines.insert(at, q);
         }
     }
     Scenario {
